@@ -237,8 +237,8 @@ PROPS["C16"] = {
     "undecided": ["from_acgt_bytes IS proved as a whole function (unit extend): whichever path runs, the result is well formed and spells base_to_bits of every byte (`r.wf() && r.view() == codes(bytes)`) - so the two paths agree with each other and with from_dna_string on ASCII text; assumed, as R21 seams: `bytes.chunks(32)` yields bytes[32i .. min(32i+32, n)] in order, `is_x86_feature_detected!` is some bool (both answers covered), the two `iter().map(f)` chains, and the block functions convert_bases / pack_32_bases by the contract Kani a_block proves; its pieces (scalar path, one vector trip, closing statement, lemma_vec_path) stay under contract on their own",
                   "from_dna_only_string IS proved as a whole function (unit hashn, runs_post: the result is exactly the maximal runs of ACGT letters of the text, in order, each non-empty and translated letter by letter; every letter lies in one run) - `dna.chars()` being a seam (R21) with the assumed meaning `the chars of the text in order`, and for chars outside Latin-1 the real code's `c as u8` truncation applies (a char whose low byte is an ACGT letter counts as that letter - recorded, the property speaks of ASCII input); from_acgt_bytes_hashn IS decided (unit hashn), but relative to std's hasher being a function of the bytes fed (vstd's DefaultHasher specification plus assumed contracts for the two Hash::hash calls and for cloning the hasher)"],
     "trust": VERUS_TRUST + [ADAPTER_NOTE, "Verus unit extend calls convert_bases / pack_32_bases by the contract that Kani harness a_block proves on the real code (lane t of the packed word is base_to_bits(block[t]))", "the two AVX2 intrinsic models (_mm256_shuffle_epi8, _mm256_testc_si256) follow the Intel SDM; validated natively against the CPU by `debruijn-replay --validate-avx-models`, not proved"],
-    "level_text": "The six byte tables are proved for all 256 byte values and the vector path (convert_bases + pack_32_bases, real code incl. unsafe loadu) is proved equal to the scalar path on ALL 256^32 blocks, lane by lane, with the valid flag exact (Kani, complete). DnaString::from_acgt_bytes_hashn is proved as a whole function, for every input (Verus unit hashn, rule R20): the result has one base per byte; A/C/G/T in either case give 0/1/2/3; every other byte gives a base < 4 that is a function of the read name and the position only (finish of a hasher fed exactly the read name and the position) - hence repeatable and independent of the vector path, the other bytes and the string length.",
-    "level_note": "Trusted: Kani/CBMC; two intrinsic models (Kani cannot translate pshufb / vptest). The chunking loop of from_acgt_bytes is not under an unbounded contract (undecided_clauses).",
+    "level_text": "The six byte tables are proved for all 256 byte values and the vector path (convert_bases + pack_32_bases, real code incl. unsafe loadu) is proved equal to the scalar path on ALL 256^32 blocks, lane by lane, with the valid flag exact (Kani, complete). DnaString::from_acgt_bytes_hashn is proved as a whole function, for every input (Verus unit hashn, rule R20): the result has one base per byte; A/C/G/T in either case give 0/1/2/3; every other byte gives a base < 4 that is a function of the read name and the position only (finish of a hasher fed exactly the read name and the position) - hence repeatable and independent of the vector path, the other bytes and the string length. DnaString::from_acgt_bytes is proved as a whole function (Verus unit extend): on the vector path and on the scalar path alike the result is well formed and spells base_to_bits of every input byte, for every length - path independence as one postcondition; from_dna_string builds the same codes from text; from_dna_only_string returns exactly the maximal runs of ACGT letters (Verus unit hashn); to_ascii_vec renders bits_to_ascii of every base.",
+    "level_note": "Trusted: Kani/CBMC; two intrinsic models (Kani cannot translate pshufb / vptest); Verus/Z3, extractor rules R1-R21 and the item-source seams listed under undecided_clauses (chunks(32), the feature test, iter().map(f), chars()). from_acgt_bytes, from_dna_string, from_dna_only_string and from_acgt_bytes_hashn are all proved as whole functions.",
 }
 
 PROPS["C17"] = {
@@ -471,5 +471,5 @@ PROPS["C20"] = {
 }
 
 NOT_APPLICABLE = {
-    "C04": "a relational equivalence between two whole pipelines (sharded vs. one pass). Its ingredients are decided here - a k-mer and its reverse complement always land in the same shard (C08), each shard's compression is a lossless partition (C01), re-compression keeps exactly the k-mers of the surviving nodes and folds payloads over them (C09), pruning removes exactly the dangling extensions (C03) - but the conclusion 'the same partition of k-mers into nodes' additionally needs UNIQUENESS of the maximal-unbranched-path decomposition (C02's undecided clause) and the grouping kernel of filter_kmers (C05's undecided clause), and BaseGraph::combine (generic Iterator of graphs, Vec::extend) is outside the Verus subset; no contract within reach expresses the equality of two runs (DESIGN.md §6 C04)",
+    "C04": "a relational equivalence between two whole pipelines (sharded vs. one pass). Its ingredients are decided here - a k-mer and its reverse complement always land in the same shard (C08), each shard's compression is a lossless partition (C01), re-compression keeps exactly the k-mers of the surviving nodes and folds payloads over them (C09), pruning removes exactly the dangling extensions (C03) - but the conclusion 'the same partition of k-mers into nodes' additionally needs UNIQUENESS of the maximal-unbranched-path decomposition (C02's undecided clause) and the two outer loops of filter_kmers (C05's undecided clause; its per-bucket grouping kernel is decided only relative to assumed sort / group_by meanings), and BaseGraph::combine (generic Iterator of graphs, Vec::extend) is outside the Verus subset; no contract within reach expresses the equality of two runs (DESIGN.md §6 C04)",
 }
